@@ -436,3 +436,812 @@ Qed.
 Lemma view_derive : forall t l, view (RDerive t :: l) = view l.
 Proof. reflexivity. Qed.
 
+Lemma parent_eqb : ("parent" =? "parent") = true. Proof. reflexivity. Qed.
+
+Lemma struct_ev_ok : forall eb ed ea mods A n base fs ms,
+  match base with Some (_, p) => head_ok p | None => true end = true ->
+  (struct_split mods A base = true -> ea = true) ->
+  map (ms_erase eb ed ea) (map (field_shape (length mods)) fs)
+  = map (ms_erase eb ed ea) (flat_map member_shapes ms) ->
+  ev_erase eb ed ea
+    (struct_shape (length mods)
+       (RDerive std_traits :: map one_attr (flat_map ext_arg A) ++ name_attr mods n
+        ++ match base with Some (abs, p) => [RDds [ABase (scoped mods abs p)]] | None => [] end)
+       n
+       (match base with
+        | Some (abs, p) => [mkField [] true "parent" (RPath (scoped mods abs p))]
+        | None => []
+        end ++ fs))
+  = ev_erase eb ed ea
+      (EStruct n (mods ++ [n]) (find_ext (flat_map ext_arg A))
+         (match base with Some (abs, p) => Some (name_kind abs p) | None => None end)
+         (flat_map member_shapes ms)).
+Proof.
+  intros eb ed ea mods A n base fs ms Hbase Hsp HM.
+  unfold struct_shape. cbv zeta. rewrite !view_derive.
+  pose proof (ext_args_are_ext A) as HE. unfold struct_split in Hsp.
+  pose proof (scoped_kind mods) as SK.
+  destruct (flat_map ext_arg A) as [|x X']; [|inversion HE as [|? ? Hx _]; destruct x; try destruct Hx];
+  destruct mods as [|m mods']; destruct base as [[abs p]|];
+  cbn [map app one_attr name_attr view find_base find_ext qname_of find_name length in_module
+       f_name f_ty f_attrs kind_of_rty] in *;
+  try rewrite !(SK _ _ Hbase); try rewrite kind_eqb_refl; try rewrite parent_eqb; cbn [andb];
+  (destruct ea;
+   [ cbn [ev_erase]; f_equal; fold notparent;
+     rewrite <- !(filter_map_comm notparent (ms_erase eb ed true)) by reflexivity;
+     cbn [map filter field_shape f_name ms_erase ms_name notparent is_parent negb];
+     try rewrite parent_eqb; cbn [negb]; rewrite <- ?HM; reflexivity
+   | try (assert (false = true) by (apply Hsp; apply Nat.ltb_lt; cbn [length]; lia); discriminate);
+     cbn [ev_erase]; rewrite ?HM; reflexivity ]).
+Qed.
+
+Lemma struct_shape_ok : forall eb ed ea mods A n base ms items,
+  match base with Some (_, p) => head_ok p | None => true end = true ->
+  forallb (fun m => tspec_wf (m_type m)) ms = true ->
+  (existsb (fun m => tspec_bounded (m_type m)) ms = true -> eb = true) ->
+  (existsb (fun m => existsb multi_dim (m_d0 m :: m_ds m)) ms = true -> ed = true) ->
+  (existsb member_multi_annot ms = true -> ea = true) ->
+  (struct_split mods A base || existsb member_split ms = true -> ea = true) ->
+  gen_struct mods A n base ms = Some items ->
+  map (ev_erase eb ed ea) (shape_of_items (length mods) items)
+  = map (ev_erase eb ed ea) (shape_of_def mods (DStruct A n base ms)).
+Proof.
+  intros eb ed ea mods A n base ms items Hbase Hwf Hb Hd Hma Hsp.
+  unfold gen_struct. destruct (concat_opt (map (gen_member mods) ms)) as [fs|] eqn:CO; [|discriminate].
+  intros E. inversion E. subst items. clear E.
+  assert (Hsp1 : struct_split mods A base = true -> ea = true)
+    by (intros H; apply Hsp; rewrite H; reflexivity).
+  assert (Hsp2 : existsb member_split ms = true -> ea = true)
+    by (intros H; apply Hsp; rewrite H; apply orb_true_r).
+  pose proof (members_shape_ok eb ed ea mods ms fs Hwf Hb Hd Hma Hsp2 CO) as HM.
+  unfold shape_of_items. cbn [flat_map shape_of_item shape_of_def app]. rewrite derives_std. cbn [app map].
+  cbn [map]. f_equal. apply struct_ev_ok; assumption.
+Qed.
+
+(* --------------------------------------------------------------------- enums *)
+
+Lemma enum_variants_plain : forall es,
+  forallb (fun va => match v_fields va with None => true | _ => false end) (map gen_enumerator es) = true.
+Proof. induction es; cbn [map forallb]; [reflexivity | exact IHes]. Qed.
+
+Lemma enum_shape_ok : forall eb ed ea mods A n es,
+  (enum_split mods A = true -> ea = true) ->
+  map (ev_erase eb ed ea) (shape_of_items (length mods) (gen_enum mods A n es))
+  = map (ev_erase eb ed ea)
+      [EEnum n (mods ++ [n]) (hd_opt (flat_map bit_bound_arg A))
+             (map (fun e => (e_name e, flat_map value_arg (e_annots e))) es)].
+Proof.
+  intros eb ed ea mods A n es Hsp. unfold gen_enum, shape_of_items.
+  cbn [flat_map shape_of_item app]. rewrite derives_std. cbn [app map]. f_equal.
+  unfold enum_shape. cbv zeta. rewrite !view_derive. rewrite enum_variants_plain.
+  rewrite map_map. cbn [gen_enumerator v_name v_disc].
+  unfold enum_split in Hsp.
+  destruct mods as [|m mods']; destruct (flat_map bit_bound_arg A) as [|b [|b2 B]];
+  cbn [name_attr map app view find_switch find_bit_bound qname_of find_name hd_opt length in_module] in *;
+  (destruct ea;
+   [ rewrite ?map_map; reflexivity
+   | try (assert (false = true) by (apply Hsp; apply Nat.ltb_lt; cbn [length]; lia); discriminate);
+     rewrite ?map_map; reflexivity ]).
+Qed.
+
+(* -------------------------------------------------------------------- unions *)
+
+Lemma case_labels_ok : forall ls,
+  case_labels (map label_arg ls) = flat_map (fun l => match l with Some e => [e] | None => [] end) ls.
+Proof.
+  induction ls as [|[e|] ls IH]; cbn [map label_arg case_labels flat_map app]; [reflexivity| |].
+  - unfold case_labels in *. cbn [flat_map app]. rewrite IH. reflexivity.
+  - unfold case_labels in *. cbn [flat_map app]. exact IH.
+Qed.
+
+Lemma case_default_ok : forall ls,
+  existsb is_default_arg (map label_arg ls) = existsb (fun l => match l with None => true | _ => false end) ls.
+Proof.
+  induction ls as [|[e|] ls IH]; cbn [map label_arg existsb is_default_arg]; [reflexivity| |].
+  - exact IH.
+  - reflexivity.
+Qed.
+
+Lemma case_shape_ok : forall eb ed mods c va,
+  tspec_wf (uc_type c) = true ->
+  (tspec_bounded (uc_type c) = true -> eb = true) ->
+  (multi_dim (uc_decl c) = true -> ed = true) ->
+  gen_case mods c = Some va ->
+  exists cs, variant_case (length mods) va = Some cs /\ cs_erase eb ed cs = cs_erase eb ed (case_shape c).
+Proof.
+  intros eb ed mods [l0 ls t d] va. cbn [uc_type uc_decl]. intros Hwf Hb Hd. unfold gen_case.
+  cbn [uc_l0 uc_ls uc_type uc_decl]. destruct (gen_ty mods t) as [r|] eqn:G; [|discriminate].
+  intros E. inversion E. subst va. clear E. unfold variant_case. cbn [v_fields v_attrs view f_name f_ty].
+  eexists. split; [reflexivity|]. unfold case_shape, cs_erase.
+  cbn [uc_l0 uc_ls uc_type uc_decl cs_labels cs_default cs_name cs_kind].
+  change (label_arg l0 :: map label_arg ls) with (map label_arg (l0 :: ls)).
+  rewrite case_labels_ok, case_default_ok. f_equal. apply decl_kind_ok; assumption.
+Qed.
+
+Lemma cases_shape_ok : forall eb ed mods cs vs,
+  forallb (fun c => tspec_wf (uc_type c)) cs = true ->
+  (existsb (fun c => tspec_bounded (uc_type c)) cs = true -> eb = true) ->
+  (existsb (fun c => multi_dim (uc_decl c)) cs = true -> ed = true) ->
+  all_opt (map (gen_case mods) cs) = Some vs ->
+  exists cs', all_opt (map (variant_case (length mods)) vs) = Some cs'
+              /\ map (cs_erase eb ed) cs' = map (cs_erase eb ed) (map case_shape cs).
+Proof.
+  intros eb ed mods. induction cs as [|c cs IH]; intros vs Hwf Hb Hd; cbn [map all_opt].
+  - intros E. inversion E. exists []. split; reflexivity.
+  - destruct (gen_case mods c) as [va|] eqn:G; [|discriminate].
+    destruct (all_opt (map (gen_case mods) cs)) as [vs'|] eqn:AO; [|discriminate].
+    intros E. inversion E. subst vs. clear E.
+    cbn [forallb] in Hwf. apply andb_true_iff in Hwf. destruct Hwf as [Hw1 Hw2].
+    destruct (case_shape_ok eb ed mods c va Hw1) as [cs1 [V1 E1]]; try exact G.
+    + intros H. apply Hb. cbn [existsb]. rewrite H. reflexivity.
+    + intros H. apply Hd. cbn [existsb]. rewrite H. reflexivity.
+    + destruct (IH vs' Hw2) as [cs2 [V2 E2]]; try reflexivity.
+      * intros H. apply Hb. cbn [existsb]. rewrite H. apply orb_true_r.
+      * intros H. apply Hd. cbn [existsb]. rewrite H. apply orb_true_r.
+      * exists (cs1 :: cs2). cbn [map all_opt]. rewrite V1, V2. split; [reflexivity|].
+        cbn [map]. rewrite E1, E2. reflexivity.
+Qed.
+
+Definition disc_wf (t : tspec) : bool :=
+  match t with TPrim _ => true | TName _ p => head_ok p | _ => false end.
+
+Lemma switch_kind : forall mods disc,
+  disc_wf disc = true -> path_kind (length mods) (switch_path mods disc) = kind_of_tspec disc.
+Proof.
+  intros mods disc H. destruct disc; try discriminate; cbn [switch_path kind_of_tspec].
+  - unfold path_kind. cbn [p_lead p_segs]. apply leaf_prim.
+  - apply scoped_kind. exact H.
+Qed.
+
+Lemma union_shape_ok : forall eb ed ea mods n disc cs items,
+  disc_wf disc = true ->
+  forallb (fun c => tspec_wf (uc_type c)) cs = true ->
+  (existsb (fun c => tspec_bounded (uc_type c)) cs = true -> eb = true) ->
+  (existsb (fun c => multi_dim (uc_decl c)) cs = true -> ed = true) ->
+  gen_union mods n disc cs = Some items ->
+  map (ev_erase eb ed ea) (shape_of_items (length mods) items)
+  = map (ev_erase eb ed ea) [EUnion n (mods ++ [n]) (kind_of_tspec disc) (map case_shape cs)].
+Proof.
+  intros eb ed ea mods n disc cs items Hdisc Hwf Hb Hd. unfold gen_union.
+  destruct (all_opt (map (gen_case mods) cs)) as [vs|] eqn:AO; [|discriminate].
+  intros E. inversion E. subst items. clear E.
+  destruct (cases_shape_ok eb ed mods cs vs Hwf Hb Hd AO) as [cs' [V EQ]].
+  unfold shape_of_items. cbn [flat_map shape_of_item app]. rewrite derives_std. cbn [app map]. f_equal.
+  unfold enum_shape. cbv zeta. rewrite view_derive. cbn [view find_switch]. rewrite V.
+  rewrite (switch_kind mods disc Hdisc). cbn [ev_erase]. rewrite EQ. f_equal.
+  destruct mods; reflexivity.
+Qed.
+
+(* ------------------------------------------------------- typedefs and constants *)
+
+Lemma typedef_shape_ok : forall eb ed ea mods t ds items,
+  tspec_wf t = true -> (tspec_bounded t = true -> eb = true) ->
+  existsb is_array ds = false ->
+  gen_typedef mods t ds = Some items ->
+  map (ev_erase eb ed ea) (shape_of_items (length mods) items)
+  = map (ev_erase eb ed ea) (map (fun d => EAlias (decl_name d) (decl_kind d (kind_of_tspec t))) ds).
+Proof.
+  intros eb ed ea mods t ds items Hwf Hb Harr. unfold gen_typedef.
+  destruct (gen_ty mods t) as [r|] eqn:G; [|discriminate]. rewrite Harr.
+  intros E. inversion E. subst items. clear E.
+  pose proof (gen_ty_kind eb ed mods t r Hwf Hb G) as K.
+  unfold shape_of_items. induction ds as [|d ds IH]; [reflexivity|].
+  cbn [existsb] in Harr. apply orb_false_iff in Harr. destruct Harr as [Hd Hds].
+  cbn [map flat_map shape_of_item app ev_erase]. rewrite (IH Hds). f_equal.
+  destruct d; [|discriminate]. cbn [decl_name decl_kind]. rewrite K. reflexivity.
+Qed.
+
+Lemma const_shape_ok : forall eb ed ea mods t n e r,
+  tspec_wf t = true -> (tspec_bounded t = true -> eb = true) ->
+  gen_const_ty mods t = Some r ->
+  map (ev_erase eb ed ea) (shape_of_items (length mods) [RConst n r e])
+  = map (ev_erase eb ed ea) [EConst n (kind_of_tspec t) e].
+Proof.
+  intros eb ed ea mods t n e r Hwf Hb G. unfold shape_of_items. cbn [flat_map shape_of_item app map ev_erase].
+  f_equal. f_equal. destruct t; cbn [gen_const_ty] in G;
+    try (apply (gen_ty_kind eb ed mods _ r Hwf Hb G)).
+  inversion G. subst r. cbn [kind_of_rty kind_of_tspec kind_erase].
+  destruct eb; [reflexivity|]. destruct b; [|reflexivity].
+  exfalso. assert (false = true) by (apply Hb; reflexivity). discriminate.
+Qed.
+
+(* ------------------------------------------------------ induction over definitions *)
+
+Section DefInd.
+  Variable P : def -> Prop.
+  Hypothesis Hmod : forall n body, Forall P body -> P (DModule n body).
+  Hypothesis Hstruct : forall A n b ms, P (DStruct A n b ms).
+  Hypothesis Henum : forall A n e0 es, P (DEnum A n e0 es).
+  Hypothesis Hunion : forall n disc c0 cs, P (DUnion n disc c0 cs).
+  Hypothesis Htypedef : forall t d0 ds, P (DTypedef t d0 ds).
+  Hypothesis Hconst : forall t n e, P (DConst t n e).
+  Hypothesis Hfwd : forall u n, P (DFwd u n).
+  Hypothesis Hunsup : forall k, P (DUnsup k).
+  Fixpoint def_ind2 (d : def) : P d :=
+    match d with
+    | DModule n body =>
+        Hmod n body ((fix go (l : list def) : Forall P l :=
+                        match l with
+                        | [] => Forall_nil P
+                        | x :: r => Forall_cons x (def_ind2 x) (go r)
+                        end) body)
+    | DStruct A n b ms => Hstruct A n b ms
+    | DEnum A n e0 es => Henum A n e0 es
+    | DUnion n disc c0 cs => Hunion n disc c0 cs
+    | DTypedef t d0 ds => Htypedef t d0 ds
+    | DConst t n e => Hconst t n e
+    | DFwd u n => Hfwd u n
+    | DUnsup k => Hunsup k
+    end.
+End DefInd.
+
+(* well-formedness used by the proofs (implied by [supported], see below) *)
+Fixpoint def_wf (d : def) : bool :=
+  match d with
+  | DModule _ body => forallb def_wf body
+  | DStruct _ _ base ms =>
+      match base with Some (_, p) => head_ok p | None => true end
+      && forallb (fun m => tspec_wf (m_type m)) ms
+  | DEnum _ _ _ _ => true
+  | DUnion _ disc c0 cs => disc_wf disc && forallb (fun c => tspec_wf (uc_type c)) (c0 :: cs)
+  | DTypedef t d0 ds => tspec_wf t && negb (existsb is_array (d0 :: ds))
+  | DConst t _ _ => tspec_wf t
+  | DFwd _ _ => true
+  | DUnsup _ => false
+  end.
+
+Lemma shape_of_items_app : forall d x y, shape_of_items d (x ++ y) = shape_of_items d x ++ shape_of_items d y.
+Proof. intros. unfold shape_of_items. apply flat_map_app. Qed.
+
+Lemma gen_def_shape : forall eb ed ea d mods items,
+  def_wf d = true ->
+  (def_bounded d = true -> eb = true) -> (def_multi_dim d = true -> ed = true) ->
+  (def_multi_annot d = true -> ea = true) -> (def_split mods d = true -> ea = true) ->
+  gen_def mods d = Some items ->
+  map (ev_erase eb ed ea) (shape_of_items (length mods) items)
+  = map (ev_erase eb ed ea) (shape_of_def mods d).
+Proof.
+  intros eb ed ea d. induction d using def_ind2; intros mods items Hwf Hb Hd Hma Hsp G.
+  - (* module *)
+    cbn [gen_def] in G.
+    destruct (concat_opt (map (gen_def (mods ++ [n])) body)) as [its|] eqn:CO; [|discriminate].
+    inversion G. subst items. clear G.
+    cbn [def_wf def_bounded def_multi_dim def_multi_annot def_split] in *.
+    unfold shape_of_items. cbn [flat_map shape_of_item shape_of_def]. rewrite app_nil_r.
+    cbn [map]. rewrite !map_app. cbn [map ev_erase]. f_equal. f_equal.
+    change (flat_map (shape_of_item (S (length mods))) its) with (shape_of_items (S (length mods)) its).
+    rewrite (map_flat_map (ev_erase eb ed ea) (shape_of_def (mods ++ [n]))).
+    assert (L : S (length mods) = length (mods ++ [n])) by (rewrite app_length; cbn [length]; lia).
+    rewrite L.
+    apply (concat_opt_map (gen_def (mods ++ [n]))
+             (fun l => map (ev_erase eb ed ea) (shape_of_items (length (mods ++ [n])) l))
+             (fun d => map (ev_erase eb ed ea) (shape_of_def (mods ++ [n]) d))) with (l := body).
+    + intros x y. rewrite shape_of_items_app, map_app. reflexivity.
+    + reflexivity.
+    + intros d its' Hin G'. rewrite Forall_forall in H. rewrite forallb_forall in Hwf.
+      apply (H d Hin); try exact G'.
+      * apply Hwf. exact Hin.
+      * intros E. exact (imp_existsb _ eb body d Hb Hin E).
+      * intros E. exact (imp_existsb _ ed body d Hd Hin E).
+      * intros E. exact (imp_existsb _ ea body d Hma Hin E).
+      * intros E. exact (imp_existsb _ ea body d Hsp Hin E).
+    + exact CO.
+  - (* struct *)
+    cbn [gen_def def_wf def_bounded def_multi_dim def_multi_annot def_split] in *.
+    apply andb_true_iff in Hwf. destruct Hwf as [Hw1 Hw2].
+    apply struct_shape_ok; assumption.
+  - (* enum *)
+    cbn [gen_def def_split] in *. inversion G. subst items.
+    apply enum_shape_ok. exact Hsp.
+  - (* union *)
+    cbn [gen_def def_wf def_bounded def_multi_dim] in *.
+    apply andb_true_iff in Hwf. destruct Hwf as [Hw1 Hw2].
+    apply union_shape_ok; assumption.
+  - (* typedef *)
+    cbn [gen_def def_wf def_bounded] in *.
+    apply andb_true_iff in Hwf. destruct Hwf as [Hw1 Hw2]. apply negb_true_iff in Hw2.
+    apply typedef_shape_ok; assumption.
+  - (* const *)
+    cbn [gen_def def_wf def_bounded] in *.
+    destruct (gen_const_ty mods t) as [r|] eqn:GC; [|discriminate]. inversion G. subst items.
+    apply const_shape_ok; assumption.
+  - (* forward declaration *)
+    cbn [gen_def] in G. inversion G. reflexivity.
+  - discriminate.
+Qed.
+
+Lemma gen_defs_shape : forall eb ed ea mods defs items,
+  forallb def_wf defs = true ->
+  (existsb def_bounded defs = true -> eb = true) -> (existsb def_multi_dim defs = true -> ed = true) ->
+  (existsb def_multi_annot defs = true -> ea = true) -> (existsb (def_split mods) defs = true -> ea = true) ->
+  gen_defs mods defs = Some items ->
+  map (ev_erase eb ed ea) (shape_of_items (length mods) items)
+  = map (ev_erase eb ed ea) (shape_of_defs mods defs).
+Proof.
+  intros eb ed ea mods defs items Hwf Hb Hd Hma Hsp G. unfold gen_defs in G. unfold shape_of_defs.
+  rewrite map_flat_map.
+  apply (concat_opt_map (gen_def mods)
+           (fun l => map (ev_erase eb ed ea) (shape_of_items (length mods) l))
+           (fun d => map (ev_erase eb ed ea) (shape_of_def mods d))) with (l := defs).
+  - intros x y. rewrite shape_of_items_app, map_app. reflexivity.
+  - reflexivity.
+  - intros d its Hin G'. rewrite forallb_forall in Hwf. apply gen_def_shape; try exact G'.
+    + apply Hwf. exact Hin.
+    + intros E. exact (imp_existsb _ eb defs d Hb Hin E).
+    + intros E. exact (imp_existsb _ ed defs d Hd Hin E).
+    + intros E. exact (imp_existsb _ ea defs d Hma Hin E).
+    + intros E. exact (imp_existsb _ ea defs d Hsp Hin E).
+  - exact G.
+Qed.
+
+(* ------------------------------------------------------------------ totality *)
+
+Lemma gen_def_total : forall d mods, def_wf d = true -> exists items, gen_def mods d = Some items.
+Proof.
+  induction d using def_ind2; intros mods Hwf; cbn [gen_def def_wf] in *.
+  - destruct (concat_opt_some (gen_def (mods ++ [n])) body) as [its E].
+    + intros d Hin. rewrite Forall_forall in H. rewrite forallb_forall in Hwf. apply H; auto.
+    + rewrite E. eexists. reflexivity.
+  - apply andb_true_iff in Hwf. destruct Hwf as [_ Hw]. unfold gen_struct.
+    destruct (concat_opt_some (gen_member mods) ms) as [fs E].
+    + intros m Hin. rewrite forallb_forall in Hw. apply gen_member_total. apply Hw. exact Hin.
+    + rewrite E. eexists. reflexivity.
+  - eexists. reflexivity.
+  - apply andb_true_iff in Hwf. destruct Hwf as [_ Hw]. unfold gen_union.
+    destruct (all_opt_some (gen_case mods) (c0 :: cs)) as [vs E].
+    + intros c Hin. rewrite forallb_forall in Hw. unfold gen_case.
+      destruct (gen_ty_total mods _ (Hw c Hin)) as [r ->]. eexists. reflexivity.
+    + rewrite E. eexists. reflexivity.
+  - apply andb_true_iff in Hwf. destruct Hwf as [Hw1 Hw2]. apply negb_true_iff in Hw2. unfold gen_typedef.
+    destruct (gen_ty_total mods _ Hw1) as [r ->]. rewrite Hw2. eexists. reflexivity.
+  - assert (exists r, gen_const_ty mods t = Some r) as [r ->].
+    { destruct t; cbn [gen_const_ty]; try (apply gen_ty_total; exact Hwf). eexists. reflexivity. }
+    eexists. reflexivity.
+  - eexists. reflexivity.
+  - discriminate.
+Qed.
+
+Lemma gen_defs_total : forall mods defs, forallb def_wf defs = true -> exists items, gen_defs mods defs = Some items.
+Proof.
+  intros mods defs H. unfold gen_defs. apply concat_opt_some.
+  intros d Hin. rewrite forallb_forall in H. apply gen_def_total. apply H. exact Hin.
+Qed.
+
+(* --------------------------------------- [supported] implies the well-formedness used above *)
+
+Lemma rust_ok_not_super : forall s, rust_ident_ok s = true -> is_super s = false.
+Proof.
+  intros s H. unfold is_super. destruct (s =? "super") eqn:E; [|reflexivity].
+  apply String.eqb_eq in E. subst s. discriminate.
+Qed.
+
+Lemma tspec_ok_wf : forall t,
+  tspec_paths_ok t = true -> tspec_supported t = true -> forallb rust_ident_ok (tspec_idents t) = true ->
+  tspec_wf t = true.
+Proof.
+  induction t; cbn [tspec_paths_ok tspec_supported tspec_idents tspec_wf]; intros Hp Hs Hi; try reflexivity; try discriminate.
+  - destruct path as [|h p]; [discriminate|]. cbn [head_ok forallb] in *.
+    apply andb_true_iff in Hi. destruct Hi as [Hh _]. rewrite (rust_ok_not_super h Hh). reflexivity.
+  - apply IHt; assumption.
+Qed.
+
+Definition def_ok (d : def) : bool :=
+  def_grammar_ok d && def_supported d && forallb rust_ident_ok (def_rust_idents d).
+
+Lemma forallb_flat_map {A B} (p : B -> bool) (f : A -> list B) : forall l,
+  forallb p (flat_map f l) = forallb (fun x => forallb p (f x)) l.
+Proof. induction l as [|x l IH]; cbn [flat_map forallb]; [reflexivity|]. rewrite forallb_app, IH. reflexivity. Qed.
+
+Lemma def_ok_wf : forall d, def_ok d = true -> def_wf d = true.
+Proof.
+  unfold def_ok. induction d using def_ind2; intros HK; apply andb_true_iff in HK; destruct HK as [HK Hi];
+    apply andb_true_iff in HK; destruct HK as [Hg Hs];
+    cbn [def_grammar_ok def_supported def_rust_idents def_wf] in *.
+  - apply andb_true_iff in Hg. destruct Hg as [_ Hg]. cbn [forallb] in Hi. apply andb_true_iff in Hi.
+    destruct Hi as [_ Hi]. rewrite forallb_flat_map in Hi.
+    rewrite forallb_forall in *. rewrite Forall_forall in H. intros d Hin. apply H; [exact Hin|].
+    rewrite (Hg d Hin), (Hs d Hin), (Hi d Hin). reflexivity.
+  - apply andb_true_iff in Hg. destruct Hg as [Hg1 Hg2]. cbn [forallb] in Hi. apply andb_true_iff in Hi.
+    destruct Hi as [_ Hi]. rewrite forallb_app in Hi. apply andb_true_iff in Hi. destruct Hi as [Hi1 Hi2].
+    apply andb_true_iff. split.
+    + destruct b as [[abs p]|]; [|reflexivity]. destruct p as [|h p]; [discriminate|].
+      cbn [head_ok forallb] in *. apply andb_true_iff in Hi1. destruct Hi1 as [Hh _].
+      rewrite (rust_ok_not_super h Hh). reflexivity.
+    + rewrite forallb_flat_map in Hi2. rewrite forallb_forall in *. intros m Hin.
+      apply tspec_ok_wf; [apply Hg2; exact Hin | apply Hs; exact Hin|].
+      specialize (Hi2 m Hin). unfold member_rust_idents in Hi2. rewrite forallb_app in Hi2.
+      apply andb_true_iff in Hi2. destruct Hi2 as [Hi2 _]. exact Hi2.
+  - reflexivity.
+  - apply andb_true_iff in Hg. destruct Hg as [Hg1 Hg2]. cbn [forallb] in Hi. apply andb_true_iff in Hi.
+    destruct Hi as [_ Hi]. rewrite forallb_app in Hi. apply andb_true_iff in Hi. destruct Hi as [Hi1 Hi2].
+    apply andb_true_iff. split.
+    + destruct disc; try discriminate; [reflexivity|]. cbn [disc_wf tspec_idents] in *.
+      destruct path as [|h p]; [discriminate|]. cbn [head_ok forallb] in *.
+      apply andb_true_iff in Hi1. destruct Hi1 as [Hh _]. rewrite (rust_ok_not_super h Hh). reflexivity.
+    + rewrite forallb_flat_map in Hi2. rewrite forallb_forall in *. intros c Hin.
+      apply tspec_ok_wf; [apply Hg2; exact Hin | apply Hs; exact Hin|].
+      specialize (Hi2 c Hin). unfold case_idents in Hi2. rewrite forallb_app in Hi2.
+      apply andb_true_iff in Hi2. destruct Hi2 as [Hi2 _]. exact Hi2.
+  - apply andb_true_iff in Hs. destruct Hs as [Hs1 Hs2]. rewrite forallb_app in Hi.
+    apply andb_true_iff in Hi. destruct Hi as [Hi1 _]. rewrite Hs2, andb_true_r.
+    apply tspec_ok_wf; assumption.
+  - rewrite forallb_app in Hi. apply andb_true_iff in Hi. destruct Hi as [Hi1 _].
+    apply tspec_ok_wf; try assumption. destruct t; try reflexivity; try discriminate; exact Hg.
+  - reflexivity.
+  - discriminate.
+Qed.
+
+Lemma supported_wf : forall defs, supported defs = true -> forallb def_wf defs = true.
+Proof.
+  intros defs H. unfold supported in H. apply andb_true_iff in H. destruct H as [H Hi].
+  apply andb_true_iff in H. destruct H as [Hp Hs]. unfold parse_ok in Hp.
+  apply andb_true_iff in Hp. destruct Hp as [Hp _]. apply andb_true_iff in Hp. destruct Hp as [_ Hg].
+  rewrite forallb_flat_map in Hi. rewrite forallb_forall in *. intros d Hin. apply def_ok_wf.
+  unfold def_ok. rewrite (Hg d Hin), (Hs d Hin), (Hi d Hin). reflexivity.
+Qed.
+
+Lemma supported_parse_ok : forall defs, supported defs = true -> parse_ok defs = true.
+Proof. intros defs H. unfold supported in H. apply andb_true_iff in H. destruct H as [H _]. apply andb_true_iff in H. tauto. Qed.
+
+(* ================================================================ main theorems *)
+
+(* the compiler answers every specification of the supported subset with items *)
+Theorem compile_total_on_supported : forall defs,
+  supported defs = true -> exists items, compile_defs defs = Ok items.
+Proof.
+  intros defs H. unfold compile_defs. rewrite (supported_parse_ok defs H).
+  destruct (gen_defs_total [] defs (supported_wf defs H)) as [items ->]. eexists. reflexivity.
+Qed.
+
+(* structure is preserved up to what the classes present in the declaration lose *)
+Theorem structure_preserved_upto_classes : forall eb ed ea defs items,
+  supported defs = true ->
+  (known_bounds defs = true -> eb = true) ->
+  (known_multi_dim defs = true -> ed = true) ->
+  (known_multi_annot defs = true -> ea = true) ->
+  (known_split defs = true -> ea = true) ->
+  compile_defs defs = Ok items ->
+  map (ev_erase eb ed ea) (shape_of_items 0 items) = map (ev_erase eb ed ea) (shape_of_defs [] defs).
+Proof.
+  intros eb ed ea defs items H Hb Hd Hma Hsp C. unfold compile_defs in C.
+  rewrite (supported_parse_ok defs H) in C.
+  destruct (gen_defs [] defs) as [its|] eqn:G; [|discriminate]. inversion C. subst its.
+  apply (gen_defs_shape eb ed ea [] defs items (supported_wf defs H) Hb Hd Hma Hsp G).
+Qed.
+
+(* THE property: outside the four recorded classes the declared structure is preserved exactly *)
+Theorem idl_structure_preserved : forall defs,
+  supported defs = true ->
+  known_bounds defs = false -> known_multi_annot defs = false ->
+  known_multi_dim defs = false -> known_split defs = false ->
+  exists items, compile_defs defs = Ok items /\ shape_of_items 0 items = shape_of_defs [] defs.
+Proof.
+  intros defs H K1 K2 K3 K4. destruct (compile_total_on_supported defs H) as [items C].
+  exists items. split; [exact C|].
+  pose proof (structure_preserved_upto_classes false false false defs items H) as P.
+  rewrite !evs_erase_none in P. apply P; try exact C; intros E; congruence.
+Qed.
+
+(* everything except bounds is preserved as soon as classes 2-4 are absent *)
+Theorem structure_preserved_except_bounds : forall defs items,
+  supported defs = true ->
+  known_multi_annot defs = false -> known_multi_dim defs = false -> known_split defs = false ->
+  compile_defs defs = Ok items ->
+  map (ev_erase true false false) (shape_of_items 0 items)
+  = map (ev_erase true false false) (shape_of_defs [] defs).
+Proof.
+  intros defs items H K2 K3 K4 C.
+  apply (structure_preserved_upto_classes true false false defs items H); try exact C; intros E; congruence.
+Qed.
+
+(* names, nesting, member order and kinds (without bounds / later dimensions), enumerators
+   and values, discriminator and case labels: preserved for EVERY supported specification *)
+Theorem skeleton_always_preserved : forall defs items,
+  supported defs = true -> compile_defs defs = Ok items ->
+  map (ev_erase true true true) (shape_of_items 0 items)
+  = map (ev_erase true true true) (shape_of_defs [] defs).
+Proof.
+  intros defs items H C.
+  apply (structure_preserved_upto_classes true true true defs items H); try exact C; reflexivity.
+Qed.
+
+(* ------------------------------------------------- the clauses of the property, one by one *)
+
+Lemma proj_erase {B} (f : ev -> list B) eb ed ea :
+  (forall e, f (ev_erase eb ed ea e) = f e) ->
+  forall l, flat_map f (map (ev_erase eb ed ea) l) = flat_map f l.
+Proof.
+  intros H. induction l as [|x l IH]; cbn [map flat_map]; [reflexivity|]. rewrite H, IH. reflexivity.
+Qed.
+
+Lemma proj_transfer {B} (f : ev -> list B) eb ed ea a b :
+  (forall e, f (ev_erase eb ed ea e) = f e) ->
+  map (ev_erase eb ed ea) a = map (ev_erase eb ed ea) b -> flat_map f a = flat_map f b.
+Proof.
+  intros H E. rewrite <- (proj_erase f eb ed ea H a), <- (proj_erase f eb ed ea H b), E. reflexivity.
+Qed.
+
+Lemma ev_name_erase : forall eb ed ea e, ev_name (ev_erase eb ed ea e) = ev_name e.
+Proof. intros eb ed ea e. destruct e; reflexivity. Qed.
+
+Lemma ms_proj_erase {B} (f : mshape -> B) (p : mshape -> bool) eb ed :
+  (forall m, f (ms_erase eb ed false m) = f m) -> (forall m, p (ms_erase eb ed false m) = p m) ->
+  forall ms, map f (filter p (map (ms_erase eb ed false) ms)) = map f (filter p ms).
+Proof.
+  intros Hf Hp. induction ms as [|m ms IH]; cbn [map filter]; [reflexivity|].
+  rewrite Hp. destruct (p m); cbn [map]; rewrite ?Hf, IH; reflexivity.
+Qed.
+
+Lemma map_ms_erase {B} (f : mshape -> B) eb ed :
+  (forall m, f (ms_erase eb ed false m) = f m) ->
+  forall ms, map f (map (ms_erase eb ed false) ms) = map f ms.
+Proof. intros Hf ms. rewrite map_map. apply map_ext. exact Hf. Qed.
+
+Section Clauses.
+  Variables (defs : list def) (items : list ritem).
+  Hypothesis Hsup : supported defs = true.
+  Hypothesis Hc : compile_defs defs = Ok items.
+
+  Let Hall := skeleton_always_preserved defs items Hsup Hc.
+
+  (* no hypothesis on classes: *)
+  Lemma names_preserved : names_of (shape_of_items 0 items) = names_of (shape_of_defs [] defs).
+  Proof.
+    unfold names_of.
+    assert (N : forall l, map ev_name (map (ev_erase true true true) l) = map ev_name l)
+      by (intros l; rewrite map_map; apply map_ext; intros; apply ev_name_erase).
+    rewrite <- (N (shape_of_items 0 items)), <- (N (shape_of_defs [] defs)), Hall. reflexivity.
+  Qed.
+
+  Lemma enumerators_preserved :
+    enumerators_of (shape_of_items 0 items) = enumerators_of (shape_of_defs [] defs).
+  Proof. apply (proj_transfer _ true true true); [intros e; destruct e; reflexivity | exact Hall]. Qed.
+
+  Lemma union_labels_preserved :
+    union_labels_of (shape_of_items 0 items) = union_labels_of (shape_of_defs [] defs).
+  Proof.
+    apply (proj_transfer _ true true true); [|exact Hall]. intros e; destruct e; try reflexivity.
+    cbn [ev_erase]. rewrite map_map. reflexivity.
+  Qed.
+
+  (* attributes intact (classes 2 and 4 absent); bounds and dimensions do not matter: *)
+  Hypothesis K2 : known_multi_annot defs = false.
+  Hypothesis K4 : known_split defs = false.
+
+  Let Hattr : map (ev_erase (known_bounds defs) (known_multi_dim defs) false) (shape_of_items 0 items)
+              = map (ev_erase (known_bounds defs) (known_multi_dim defs) false) (shape_of_defs [] defs).
+  Proof. apply structure_preserved_upto_classes; auto; intros E; congruence. Qed.
+
+  Lemma members_preserved : members_of (shape_of_items 0 items) = members_of (shape_of_defs [] defs).
+  Proof.
+    apply (proj_transfer _ (known_bounds defs) (known_multi_dim defs) false); [|exact Hattr]. intros e; destruct e; try reflexivity.
+    cbn [ev_erase struct_proj]. rewrite map_ms_erase; reflexivity.
+  Qed.
+
+  Lemma keys_preserved : keys_of (shape_of_items 0 items) = keys_of (shape_of_defs [] defs).
+  Proof.
+    apply (proj_transfer _ (known_bounds defs) (known_multi_dim defs) false); [|exact Hattr]. intros e; destruct e; try reflexivity.
+    cbn [ev_erase struct_proj]. rewrite ms_proj_erase; reflexivity.
+  Qed.
+
+  Lemma ids_preserved : ids_of (shape_of_items 0 items) = ids_of (shape_of_defs [] defs).
+  Proof.
+    apply (proj_transfer _ (known_bounds defs) (known_multi_dim defs) false); [|exact Hattr]. intros e; destruct e; try reflexivity.
+    cbn [ev_erase struct_proj]. rewrite map_ms_erase; reflexivity.
+  Qed.
+
+  Lemma optionals_preserved : optionals_of (shape_of_items 0 items) = optionals_of (shape_of_defs [] defs).
+  Proof.
+    apply (proj_transfer _ (known_bounds defs) (known_multi_dim defs) false); [|exact Hattr]. intros e; destruct e; try reflexivity.
+    cbn [ev_erase struct_proj]. rewrite ms_proj_erase; reflexivity.
+  Qed.
+
+  (* extensibility, base type, qualified name *)
+  Lemma struct_headers_preserved :
+    struct_headers_of (shape_of_items 0 items) = struct_headers_of (shape_of_defs [] defs).
+  Proof. apply (proj_transfer _ (known_bounds defs) (known_multi_dim defs) false); [intros e; destruct e; reflexivity | exact Hattr]. Qed.
+
+  Lemma enums_preserved : enums_of (shape_of_items 0 items) = enums_of (shape_of_defs [] defs).
+  Proof. apply (proj_transfer _ (known_bounds defs) (known_multi_dim defs) false); [intros e; destruct e; reflexivity | exact Hattr]. Qed.
+End Clauses.
+
+(* kinds: bounds (class 1) and array dimensions (class 3) are what can get lost *)
+Lemma unions_preserved : forall defs items,
+  supported defs = true -> compile_defs defs = Ok items ->
+  known_bounds defs = false -> known_multi_dim defs = false ->
+  unions_of (shape_of_items 0 items) = unions_of (shape_of_defs [] defs).
+Proof.
+  intros defs items Hs Hc K1 K3.
+  apply (proj_transfer _ false false true).
+  - intros e; destruct e; try reflexivity. cbn [ev_erase]. rewrite (map_id_ext _ cs_erase_none). reflexivity.
+  - apply structure_preserved_upto_classes; auto; intros E; congruence.
+Qed.
+
+Lemma aliases_consts_preserved : forall defs items,
+  supported defs = true -> compile_defs defs = Ok items ->
+  known_bounds defs = false -> known_multi_dim defs = false ->
+  aliases_of (shape_of_items 0 items) = aliases_of (shape_of_defs [] defs)
+  /\ consts_of (shape_of_items 0 items) = consts_of (shape_of_defs [] defs).
+Proof.
+  intros defs items Hs Hc K1 K3.
+  assert (H : map (ev_erase false false true) (shape_of_items 0 items)
+              = map (ev_erase false false true) (shape_of_defs [] defs))
+    by (apply structure_preserved_upto_classes; auto; intros E; congruence).
+  split; (apply (proj_transfer _ false false true); [|exact H]);
+    intros e; destruct e; try reflexivity; cbn [ev_erase]; rewrite kind_erase_none; reflexivity.
+Qed.
+
+(* ----------------------------------------------------- the four classes are real *)
+
+(* struct User { wstring<8> name; sequence<unsigned long, 2> deps; }; *)
+Definition w_bounds : list def :=
+  [DStruct [] "User" None
+     [mkMember [] (TWStr (Some "8")) (DSimple "name") [];
+      mkMember [] (TSeq (TPrim PU32) (Some "2")) (DSimple "deps") []]].
+(* struct S { @key long a, b; }; *)
+Definition w_multi_annot : list def :=
+  [DStruct [] "S" None [mkMember [mkAnnot "key" None] (TPrim PI32) (DSimple "a") [DSimple "b"]]].
+(* struct S { long x[2][3]; }; *)
+Definition w_multi_dim : list def :=
+  [DStruct [] "S" None [mkMember [] (TPrim PI32) (DArray "x" "2" ["3"]) []]].
+(* module M { @mutable struct A { @id(7) @key long y; }; }; *)
+Definition w_split : list def :=
+  [DModule "M" [DStruct [mkAnnot "mutable" None] "A" None
+                  [mkMember [mkAnnot "id" (Some "7"); mkAnnot "key" None] (TPrim PI32) (DSimple "y") []]]].
+
+Definition only_class (k : N) (defs : list def) : Prop :=
+  supported defs = true /\
+  known_bounds defs = N.eqb k 1 /\ known_multi_annot defs = N.eqb k 2 /\
+  known_multi_dim defs = N.eqb k 3 /\ known_split defs = N.eqb k 4.
+
+Lemma bounds_refuted : exists defs items,
+  only_class 1 defs /\ compile_defs defs = Ok items
+  /\ member_kinds_of (shape_of_items 0 items) <> member_kinds_of (shape_of_defs [] defs).
+Proof.
+  exists w_bounds. eexists. split; [|split].
+  - repeat split; vm_compute; reflexivity.
+  - vm_compute. reflexivity.
+  - vm_compute. discriminate.
+Qed.
+
+Lemma multi_annot_refuted : exists defs items,
+  only_class 2 defs /\ compile_defs defs = Ok items
+  /\ keys_of (shape_of_items 0 items) <> keys_of (shape_of_defs [] defs).
+Proof.
+  exists w_multi_annot. eexists. split; [|split].
+  - repeat split; vm_compute; reflexivity.
+  - vm_compute. reflexivity.
+  - vm_compute. discriminate.
+Qed.
+
+Lemma multi_dim_refuted : exists defs items,
+  only_class 3 defs /\ compile_defs defs = Ok items
+  /\ member_kinds_of (shape_of_items 0 items) <> member_kinds_of (shape_of_defs [] defs).
+Proof.
+  exists w_multi_dim. eexists. split; [|split].
+  - repeat split; vm_compute; reflexivity.
+  - vm_compute. reflexivity.
+  - vm_compute. discriminate.
+Qed.
+
+Lemma split_refuted : exists defs items,
+  only_class 4 defs /\ compile_defs defs = Ok items
+  /\ keys_of (shape_of_items 0 items) <> keys_of (shape_of_defs [] defs)
+  /\ struct_headers_of (shape_of_items 0 items) <> struct_headers_of (shape_of_defs [] defs).
+Proof.
+  exists w_split. eexists. split; [|split; [|split]].
+  - repeat split; vm_compute; reflexivity.
+  - vm_compute. reflexivity.
+  - vm_compute. discriminate.
+  - vm_compute. discriminate.
+Qed.
+
+(* ------------------------------------------------------------- Err and Panic *)
+
+Lemma reserved_word_rejected : forall defs s,
+  In s (flat_map def_idents defs) -> ident_ok s = false -> compile_defs defs = Err 0.
+Proof.
+  intros defs s Hin Hk. unfold compile_defs.
+  replace (parse_ok defs) with false; [reflexivity|]. symmetry. unfold parse_ok.
+  apply andb_false_iff. right. apply not_true_is_false. intros H.
+  rewrite forallb_forall in H. rewrite (H s Hin) in Hk. discriminate.
+Qed.
+
+Lemma concat_opt_none {A B} (f : A -> option (list B)) : forall l x,
+  In x l -> f x = None -> concat_opt (map f l) = None.
+Proof.
+  induction l as [|y l IH]; intros x Hin Hf; [destruct Hin|]. cbn [map concat_opt].
+  destruct Hin as [->|Hin].
+  - rewrite Hf. reflexivity.
+  - destruct (f y); [|reflexivity]. rewrite (IH x Hin Hf). reflexivity.
+Qed.
+
+Lemma all_opt_none {A B} (f : A -> option B) : forall l x,
+  In x l -> f x = None -> all_opt (map f l) = None.
+Proof.
+  induction l as [|y l IH]; intros x Hin Hf; [destruct Hin|]. cbn [map all_opt].
+  destruct Hin as [->|Hin].
+  - rewrite Hf. reflexivity.
+  - destruct (f y); [|reflexivity]. rewrite (IH x Hin Hf). reflexivity.
+Qed.
+
+Lemma forallb_false_ex {A} (p : A -> bool) : forall l, forallb p l = false -> exists x, In x l /\ p x = false.
+Proof.
+  induction l as [|y l IH]; cbn [forallb]; [discriminate|]. intros H. apply andb_false_iff in H.
+  destruct H as [H|H]; [exists y; split; [left; reflexivity | exact H]|].
+  destruct (IH H) as [x [Hin Hx]]. exists x. split; [right; exact Hin | exact Hx].
+Qed.
+
+(* a construct outside the generator's rules makes it panic, wherever it is nested *)
+Lemma gen_def_unsupported : forall d mods, def_supported d = false -> gen_def mods d = None.
+Proof.
+  induction d using def_ind2; intros mods Hs; cbn [def_supported gen_def] in *; try discriminate.
+  - destruct (forallb_false_ex _ _ Hs) as [d [Hin Hd]]. rewrite Forall_forall in H.
+    rewrite (concat_opt_none (gen_def (mods ++ [n])) body d Hin (H d Hin _ Hd)). reflexivity.
+  - destruct (forallb_false_ex _ _ Hs) as [m [Hin Hm]]. unfold gen_struct.
+    rewrite (concat_opt_none (gen_member mods) ms m Hin); [reflexivity|].
+    unfold gen_member. rewrite (gen_ty_panics mods _ Hm). reflexivity.
+  - destruct (forallb_false_ex _ _ Hs) as [c [Hin Hcs]]. unfold gen_union.
+    rewrite (all_opt_none (gen_case mods) (c0 :: cs) c Hin); [reflexivity|].
+    unfold gen_case. rewrite (gen_ty_panics mods _ Hcs). reflexivity.
+  - unfold gen_typedef. apply andb_false_iff in Hs. destruct Hs as [Hs|Hs].
+    + rewrite (gen_ty_panics mods _ Hs). reflexivity.
+    + apply negb_false_iff in Hs. rewrite Hs. destruct (gen_ty mods t); reflexivity.
+  - assert (G : gen_const_ty mods t = None).
+    { destruct t; try discriminate; unfold gen_const_ty; apply gen_ty_panics; exact Hs. }
+    rewrite G. reflexivity.
+  - reflexivity.
+Qed.
+
+Lemma unsupported_panics : forall defs,
+  parse_ok defs = true -> forallb def_supported defs = false -> compile_defs defs = Panic 0.
+Proof.
+  intros defs Hp Hs. unfold compile_defs. rewrite Hp. unfold gen_defs.
+  destruct (forallb_false_ex _ _ Hs) as [d [Hin Hd]].
+  rewrite (concat_opt_none (gen_def []) defs d Hin (gen_def_unsupported d [] Hd)). reflexivity.
+Qed.
+
+(* ---------------------------------------------------------------- preprocessor *)
+
+Lemma pp_items_defs : forall env defs, pp_items env (map PDef defs) = (env, defs).
+Proof. intros env. induction defs as [|d defs IH]; cbn [map pp_items pp_item]; [reflexivity|]. rewrite IH. reflexivity. Qed.
+
+Lemma preprocess_no_directive : forall defs, preprocess (map PDef defs) = defs.
+Proof. intros. unfold preprocess. rewrite pp_items_defs. reflexivity. Qed.
+
+Lemma pp_if_body : forall env body,
+  (fix go (env : list string) (l : list ppitem) : list string * list def :=
+     match l with
+     | [] => (env, [])
+     | x :: r => let (e1, d1) := pp_item env x in let (e2, d2) := go e1 r in (e2, d1 ++ d2)
+     end) env body = pp_items env body.
+Proof.
+  intros env body. revert env. induction body as [|x r IH]; intros env; [reflexivity|].
+  simpl. destruct (pp_item env x) as [e1 d1]. rewrite IH. reflexivity.
+Qed.
+
+(* #ifdef / #ifndef: the body counts exactly when the flag is (not) defined before it *)
+Lemma pp_if : forall env neg n body,
+  pp_item env (PIf neg n body) = if xorb neg (mem_str n env) then pp_items env body else (env, []).
+Proof. intros. cbn [pp_item]. rewrite pp_if_body. reflexivity. Qed.
+
+Lemma ifdef_gates : forall n defs rest,
+  preprocess (PIf false n (map PDef defs) :: rest) = preprocess rest
+  /\ preprocess (PIf true n (map PDef defs) :: rest) = defs ++ preprocess rest
+  /\ preprocess (PDefine n :: PIf false n (map PDef defs) :: rest) = defs ++ snd (pp_items [n] rest)
+  /\ preprocess (PDefine n :: PIf true n (map PDef defs) :: rest) = snd (pp_items [n] rest).
+Proof.
+  intros n defs rest. unfold preprocess.
+  assert (M : mem_str n [n] = true) by (unfold mem_str; cbn [existsb]; rewrite String.eqb_refl; reflexivity).
+  repeat split.
+  - cbn [pp_items]. rewrite pp_if. cbn [mem_str existsb xorb]. destruct (pp_items [] rest). reflexivity.
+  - cbn [pp_items]. rewrite pp_if. cbn [mem_str existsb xorb]. rewrite pp_items_defs.
+    destruct (pp_items [] rest). reflexivity.
+  - cbn [pp_items pp_item]. rewrite pp_if_body. rewrite M. cbn [xorb]. rewrite pp_items_defs.
+    destruct (pp_items [n] rest). reflexivity.
+  - cbn [pp_items pp_item]. rewrite M. cbn [xorb]. destruct (pp_items [n] rest). reflexivity.
+Qed.
+
+(* a file whose definitions are all gated out is rejected (specification = definition+) *)
+Lemma all_gated_out_rejected : forall n body, compile [PIf false n body] = Err 0.
+Proof. intros. unfold compile, preprocess. cbn [pp_items]. rewrite pp_if. reflexivity. Qed.
